@@ -185,6 +185,12 @@ pub async fn advance_ms(ms: u64) {
 // No source change in /repo is needed for time.
 pub static VIRT_NS: std::sync::atomic::AtomicU64 = std::sync::atomic::AtomicU64::new(0);
 const FAKE_BASE_S: i64 = 1_000_000;
+/// Opt-in (default off, so no other driver changes behaviour): when set, the wall clock
+/// (CLOCK_REALTIME*, i.e. std::time::SystemTime::now()) reads the same virtual clock, so that
+/// code keyed on wall-clock time is deterministic too (used by the C08 driver: a time-based
+/// refill of a retry budget must show whichever clock it uses).
+pub static VIRT_REALTIME: AtomicBool = AtomicBool::new(false);
+const FAKE_EPOCH_S: i64 = 1_700_000_000;
 
 #[no_mangle]
 pub unsafe extern "C" fn clock_gettime(clk: libc::clockid_t, ts: *mut libc::timespec) -> libc::c_int {
@@ -193,6 +199,11 @@ pub unsafe extern "C" fn clock_gettime(clk: libc::clockid_t, ts: *mut libc::time
     {
         let v = VIRT_NS.load(Ordering::SeqCst);
         (*ts).tv_sec = FAKE_BASE_S + (v / 1_000_000_000) as i64;
+        (*ts).tv_nsec = (v % 1_000_000_000) as i64;
+        0
+    } else if (clk == libc::CLOCK_REALTIME || clk == libc::CLOCK_REALTIME_COARSE) && VIRT_REALTIME.load(Ordering::SeqCst) {
+        let v = VIRT_NS.load(Ordering::SeqCst);
+        (*ts).tv_sec = FAKE_EPOCH_S + (v / 1_000_000_000) as i64;
         (*ts).tv_nsec = (v % 1_000_000_000) as i64;
         0
     } else {
